@@ -137,7 +137,10 @@ def matpower(sc):
     """system -> mpc -> system: equivalent static network (same power flow)."""
     andes = andes_mod()
     from andes.io.matpower import system2mpc, mpc2system
-    ss = load_case(sc["case"])
+    if sc.get("spec"):
+        ss, _, _ = netbuild.build(sc["spec"])
+    else:
+        ss = load_case(sc["case"])
     if sc.get("phase_shifter"):
         i = sc["phase_shifter"]
         ss.Line.alter("phi", ss.Line.idx.v[i], 0.1047)
@@ -200,6 +203,45 @@ def _raw_cz_variant(src, dst, which, sbase_new):
     return int(float(f1[0])), int(float(f1[1]))
 
 
+def _raw_zip_variant(src, dst, which, a, g, b, y):
+    """Copy a PSS/E v33 raw file, writing the ``which``-th load as a mix of constant power, current and admittance parts that
+    draws the same power at the voltage given in the file (PSS/E: P = PL + IP v + YP v^2, Q = QL + IQ v - YQ v^2, YQ negative
+    for an inductive load).  Returns the bus number or None."""
+    lines = open(src).read().splitlines()
+    vm = {}
+    i = 3
+    while i < len(lines) and not lines[i].strip().startswith("0 /"):
+        f = [x.strip() for x in lines[i].split(",")]
+        try:
+            vm[int(f[0])] = float(f[7])
+        except (ValueError, IndexError):
+            pass
+        i += 1
+    start = next((k + 1 for k, ln in enumerate(lines) if "begin load data" in ln.lower()), None)
+    if start is None:
+        return None
+    recs = []
+    k = start
+    while k < len(lines) and not lines[k].strip().startswith("0 /"):
+        recs.append(k)
+        k += 1
+    if not recs:
+        return None
+    at = recs[which % len(recs)]
+    f = lines[at].split(",")
+    bus = int(f[0])
+    v = vm.get(bus)
+    if v is None:
+        return None
+    pl, ql = float(f[5]), float(f[6])
+    f[5] = " %.9f" % (pl - a * v - g * v * v)
+    f[6] = " %.9f" % (ql - b * v + y * v * v)
+    f[7], f[8], f[9], f[10] = " %.9f" % a, " %.9f" % b, " %.9f" % g, " %.9f" % y
+    lines[at] = ",".join(f)
+    open(dst, "w").write("\n".join(lines) + "\n")
+    return bus
+
+
 def raw_variants(sc):
     """One network written in two ways in the PSS/E format (a transformer's impedance on the system base or on its winding
     base): the two files are one system - same per-unit branch data, same power flow."""
@@ -211,9 +253,26 @@ def raw_variants(sc):
         src = case_path(sc["case"])
         ref = andes.load(src, **sys_kwargs())
         pf0, sol0, _ = _solve(ref)
-        for which, sb in sc["variants"]:
+        for which, sb in list(sc["variants"]) + [("zip", k_) for k_ in range(sc.get("zip_variants", 0))]:
             rec = dict(e="rt", fmt="raw", raised=False, same_devices=True, same_values=True, same_pflow=True, same_init=True)
             try:
+                if which == "zip":
+                    dst = os.path.join(d, "zip%d.raw" % sb)
+                    mix = [(5.0, 2.0, 1.5, -3.0), (0.0, 4.0, -2.0, 2.5), (3.0, 0.0, 0.0, -1.25)][sb % 3]
+                    pair = _raw_zip_variant(src, dst, 2 * sb + 1, *mix)
+                    if pair is None:
+                        continue
+                    ss2 = andes.load(dst, **sys_kwargs())
+                    bad = []
+                    for name in ("p0", "q0"):
+                        v0_ = np.asarray(ref.PQ.__dict__[name].v, dtype=float)
+                        v1_ = np.asarray(ss2.PQ.__dict__[name].v, dtype=float) if ss2 is not None and ss2.PQ.n == ref.PQ.n else None
+                        if v1_ is None or not np.allclose(v0_, v1_, rtol=1e-7, atol=1e-9):
+                            bad.append("PQ.%s differs for the load on bus %s written as a constant power / current / admittance mix" % (name, pair))
+                    rec["same_values"] = bool(not bad)
+                    rec["bad"] = bad
+                    ev.append(rec)
+                    continue
                 dst = os.path.join(d, "v%d_%d.raw" % (which, int(sb)))
                 pair = _raw_cz_variant(src, dst, which, float(sb))
                 if pair is None:
